@@ -339,6 +339,12 @@ def checked_arith(crate):
                     why = reason
             if why is None and _re.fullmatch(r"iv\d+ \+ iv\d+", txt):
                 why = "word index i + j < len"
+            if why is None and "Add" in t["kind"]:
+                # counter + 1 under a dominating `counter < bound` (the step of a while loop): at most bound <= usize::MAX
+                xo, yo = (b.e_operand(o) for o in t["ops"])
+                for v, one in ((xo, yo), (yo, xo)):
+                    if one == ("int", 1) and any(op == "Lt" and l == v for op, l, r in arith._relations_at(b, bb)):
+                        why = "counter + 1 with counter < bound checked on the way in: cannot overflow"
             if why:
                 out.append((b, key, "trusted", why))
             else:
@@ -421,6 +427,9 @@ def op_fidelity(crate):
                 continue
             if not ok:
                 probs.append("rhs word `%s` is not a raw/masked word of rhs with a zero default" % mir.show(v)[:60])
+            if w.index is not None and w.index[0] == "var" and len(w.index) > 2 and w.index[2] < len(b.locals) and b.locals[w.index[2]].get("mut"):
+                undec.append("words are indexed by the hand-maintained counter `%s` (while loop), whose range this rule does not extract" % w.index[1])
+                continue
             if w.index is None or w.index[0] != "iv":
                 probs.append("word update is not indexed by the loop variable")
             else:
